@@ -34,6 +34,7 @@ structure Same2 (s s' : St) : Prop where
   stream2 : s'.stream2 = s.stream2
   live2 : s'.live2 = s.live2
   susp2 : s'.susp2 = s.susp2
+  parked2 : s'.parked2 = s.parked2
   stopped2 : s'.stopped2 = s.stopped2
   gone : s'.gone = s.gone
   born2 : s'.born2 = s.born2
@@ -52,11 +53,11 @@ def RA (s s' : St) : Prop :=
 def Frame (s s' : St) : Prop := Plain s s' ∨ RA s s'
 
 theorem plain_refl (s : St) : Plain s s :=
-  ⟨⟨rfl, rfl, rfl, rfl, rfl, rfl, rfl, rfl, rfl⟩, rfl, rfl, rfl, rfl⟩
+  ⟨⟨rfl, rfl, rfl, rfl, rfl, rfl, rfl, rfl, rfl, rfl⟩, rfl, rfl, rfl, rfl⟩
 
 theorem same2_trans {s s1 s2 : St} (a : Same2 s s1) (b : Same2 s1 s2) : Same2 s s2 :=
   ⟨b.imgs.trans a.imgs, b.f2.trans a.f2, b.chan2.trans a.chan2, b.stream2.trans a.stream2, b.live2.trans a.live2,
-   b.susp2.trans a.susp2, b.stopped2.trans a.stopped2, b.gone.trans a.gone, b.born2.trans a.born2⟩
+   b.susp2.trans a.susp2, b.parked2.trans a.parked2, b.stopped2.trans a.stopped2, b.gone.trans a.gone, b.born2.trans a.born2⟩
 
 theorem plain_trans {s s1 s2 : St} (a : Plain s s1) (b : Plain s1 s2) : Plain s s2 :=
   ⟨same2_trans a.1 b.1, b.2.1.trans a.2.1, b.2.2.1.trans a.2.2.1, b.2.2.2.1.trans a.2.2.2.1, b.2.2.2.2.trans a.2.2.2.2⟩
@@ -68,7 +69,7 @@ theorem frame_trans_plain {s s1 s2 : St} (a : Frame s s1) (b : Plain s1 s2) : Fr
       b.2.2.2.2.trans a.2.2.2.2.2⟩
 
 /-- `Plain s s'` for an `s'` that is `s` with some of A's own fields updated -/
-local macro "plain_rfl" : term => `(⟨⟨rfl, rfl, rfl, rfl, rfl, rfl, rfl, rfl, rfl⟩, rfl, rfl, rfl, rfl⟩)
+local macro "plain_rfl" : term => `(⟨⟨rfl, rfl, rfl, rfl, rfl, rfl, rfl, rfl, rfl, rfl⟩, rfl, rfl, rfl, rfl⟩)
 
 theorem frameSame {s s' : St} (f : Frame s s') : Same2 s s' := by
   rcases f with f | f
@@ -155,7 +156,7 @@ theorem handshake_spec (cfg : Cfg) (s : St) (f : Fault) (h : InvA s) :
         split at hah <;> simp at hah <;> omega
       refine ⟨invA_mk (invc_reset_append (st' := .none) (dz' := false) h (by omega)) rfl rfl rfl rfl rfl rfl rfl rfl,
         fun _ => ⟨rfl, rfl, rfl, rfl⟩, ?_, by simp, by simp, hg, Or.inl rfl, fun _ => rfl, ?_,
-        Or.inr ⟨⟨rfl, rfl, rfl, rfl, rfl, rfl, rfl, rfl, rfl⟩, hk, rfl, rfl, rfl, rfl⟩, rfl, ⟨rfl, rfl⟩,
+        Or.inr ⟨⟨rfl, rfl, rfl, rfl, rfl, rfl, rfl, rfl, rfl, rfl⟩, hk, rfl, rfl, rfl, rfl⟩, rfl, ⟨rfl, rfl⟩,
         fun _ => rfl, fun x => by omega⟩
       · intro _
         dsimp only
